@@ -11,6 +11,7 @@ package main
 
 import (
 	"bytes"
+	"crypto/sha256"
 	_ "embed"
 	"encoding/json"
 	"fmt"
@@ -42,6 +43,17 @@ import (
 
 //go:embed known_repeat_classes.json
 var knownRepeatJSON []byte
+
+//go:embed known_repeat_outcomes.json
+var knownOutcomesJSON []byte
+
+var knownOutcomes = func() map[string][]string {
+	var m map[string][]string
+	if err := json.Unmarshal(knownOutcomesJSON, &m); err != nil {
+		panic("known_repeat_outcomes.json: " + err.Error())
+	}
+	return m
+}()
 
 var knownRepeat = func() map[string][]string {
 	var m map[string][]string
@@ -577,7 +589,27 @@ func repeatPart(c *vf.Ctx, u *refsmb.Universe, t *smbgen.Tally) {
 	vf.Par(len(u.Cmds), func(i int) {
 		cmd := u.Cmds[i]
 		lat := refsmb.WithoutFormatVariants(cmd.Lattices(false))
-		for _, a := range []*refsmb.Assign{cmd.Zero(lat), cmd.FullAssign(lat)} {
+		// a third assignment: the all-non-default one with every free integer field at all-ones, i.e. every
+		// flag bit set - whatever Marshal does only "when capability X is announced" happens here
+		ones := cmd.FullAssign(lat)
+		for _, f := range cmd.Fields {
+			if f.Kind != refsmb.KInt || !f.Free() {
+				continue
+			}
+			want := fmt.Sprintf("%#x", ^uint64(0)>>(64-8*uint(f.Width)))
+			for k, ch := range lat[f.Pos] {
+				if ch.Label == want {
+					ones = ones.With(f.Pos, k+1)
+				}
+			}
+		}
+		isOnes := map[*refsmb.Assign]bool{ones: true}
+		for _, a := range []*refsmb.Assign{cmd.Zero(lat), cmd.FullAssign(lat), ones} {
+			if isOnes[a] {
+				if _, err := a.Build(); err != nil {
+					continue
+				}
+			}
 			newMsg := func() *message.Message {
 				x, err := a.Build()
 				if err != nil {
@@ -610,13 +642,21 @@ func repeatPart(c *vf.Ctx, u *refsmb.Universe, t *smbgen.Tally) {
 			if a.Full {
 				baseCls = "base=full"
 			}
-			rcheck := func(sub string, ok bool, wit func() string) {
+			if isOnes[a] {
+				baseCls = "base=full-with-all-ones-integers"
+			}
+			// ... and, the inputs being two fixed assignments and a short history, by WHAT comes out: the outcomes
+			// (a digest of base, history and the bytes/error returned) seen on the unchanged tree are committed
+			// in known_repeat_outcomes.json; the same obligation failing with another outcome is a different
+			// violation (e.g. a string that grows with every Marshal where, so far, only the blocks doubled).
+			rcheckO := func(sub string, ok bool, outcome string, wit func() string) {
 				t.Check(cmd.Name, key(sub), ok, wit)
 				if ok {
 					return
 				}
+				sig := fmt.Sprintf("%x", sha256.Sum256([]byte(baseCls + "|" + outcome)))[:12]
 				if os.Getenv("C03_DEBUG_CLASSES") != "" {
-					fmt.Fprintf(os.Stderr, "CLASS %s/%s x %s\n", cmd.Name, sub, baseCls)
+					fmt.Fprintf(os.Stderr, "CLASS %s/%s x %s %s\n", cmd.Name, sub, baseCls, sig)
 				}
 				known := false
 				for _, k := range knownRepeat[cmd.Name+"/"+sub] {
@@ -624,6 +664,14 @@ func repeatPart(c *vf.Ctx, u *refsmb.Universe, t *smbgen.Tally) {
 				}
 				if !known {
 					t.Check(cmd.Name, key(sub+"/input-class:"+baseCls), false, wit)
+					return
+				}
+				seen := false
+				for _, k := range knownOutcomes[cmd.Name+"/"+sub] {
+					seen = seen || k == sig
+				}
+				if !seen {
+					t.Check(cmd.Name, key(sub+"/outcome-not-among-those-of-the-known-finding:"+baseCls), false, wit)
 				}
 			}
 			// apply runs op on m; sinceFresh = number of Marshal calls on the current command object before this op
@@ -643,7 +691,7 @@ func repeatPart(c *vf.Ctx, u *refsmb.Universe, t *smbgen.Tally) {
 					case decoded:
 						sub = "marshal-after-unmarshal"
 					}
-					rcheck(sub, !p && err == nil && bytes.Equal(out, first), func() string {
+					rcheckO(sub, !p && err == nil && bytes.Equal(out, first), fmt.Sprintf("%s|%x|%v|%v", opNames(history), out, err, p), func() string {
 						return fmt.Sprintf("Message{%s{%s}}: history [%s]: this Marshal returns %s (err=%v %s %s), the first Marshal returned %s",
 							cmd.Name, a.Label(), opNames(history), vf.HexS(out), err, msg, where, vf.HexS(first))
 					})
@@ -654,7 +702,7 @@ func repeatPart(c *vf.Ctx, u *refsmb.Universe, t *smbgen.Tally) {
 						return
 					}
 					ok := !p && err == nil && m.Command != nil && reflect.TypeOf(m.Command).Elem() == cmd.Type
-					rcheck("unmarshal-own-encoding", ok, func() string {
+					rcheckO("unmarshal-own-encoding", ok, fmt.Sprintf("%s|%v|%v|%v", opNames(history), err, p, m.Command != nil && reflect.TypeOf(m.Command).Elem() == cmd.Type), func() string {
 						return fmt.Sprintf("Message{%s{%s}}: history [%s]: Unmarshal(%s) = %v %s %s", cmd.Name, a.Label(), opNames(history), vf.HexS(first), err, msg, where)
 					})
 					if ok {
